@@ -234,3 +234,58 @@ Theorem mesh_local_view_history_independent_current_code : forall W h i,
   = m_observe_local 0 (fst (m_step code_mesh_cfg W (MLoad i) mst0)).
 Proof. intros; apply mesh_local_history_independent_lemma; auto. Qed.
 Print Assumptions mesh_local_view_history_independent_current_code.
+
+(* ======================= follow-up: computations on shared objects, finalize() twice ======================= *)
+From OM Require Import Maths.ComputeState.
+
+(* purity machine (Maths/ComputeState.v): [c_last init W h k] = (result, mask of changed operands) of computation k after
+   the computations h on the same shared operands.  For a catalogue whose computations are declared const on every
+   shared operand: result and operands are those of freshly built inputs, for all histories *)
+Theorem compute_history_independent : forall init W h k, pure W ->
+  c_last init W h k = c_last init W [] k /\ c_run init W (h ++ [k]) init = init.
+Proof. exact compute_history_independent_lemma. Qed.
+Print Assumptions compute_history_independent.
+
+(* frame rule for catalogues with declared writes *)
+Theorem compute_result_fresh_if_no_earlier_write_to_its_operands : forall init W h k o, nth_error W k = Some o ->
+  (forall j oj, In j h -> nth_error W j = Some oj -> forall i, In i (c_reads o) -> memN i (c_writes oj) = false) ->
+  fst (c_last init W h k) = c_fresh o.
+Proof. exact compute_frame_lemma. Qed.
+Print Assumptions compute_result_fresh_if_no_earlier_write_to_its_operands.
+
+Theorem compute_in_place_factorisation_refuted :
+  c_last [11; 12] Cref_bad [0%nat] 0%nat <> c_last [11; 12] Cref_bad [] 0%nat
+  /\ c_last [11; 12] Cref_bad [0%nat] 1%nat <> c_last [11; 12] Cref_bad [] 1%nat
+  /\ c_last [11; 12] Cref_good [0%nat] 1%nat = c_last [11; 12] Cref_good [] 1%nat.
+Proof. exact compute_in_place_refuted_lemma. Qed.
+Print Assumptions compute_in_place_factorisation_refuted.
+
+(* the catalogue read from the current signatures (gain.h, assemble.h, symmatrix.h) declares no write on a shared operand *)
+Theorem compute_catalogue_of_the_current_code_is_const_correct : Forall (fun p => snd p = []) code_compute_catalogue.
+Proof. repeat constructor. Qed.
+Print Assumptions compute_catalogue_of_the_current_code_is_const_correct.
+
+Theorem compute_history_independent_current_code : forall init fr h k,
+  let W := map (fun p => {| c_reads := fst (fst p); c_writes := snd (fst p); c_fresh := snd p |}) (combine code_compute_catalogue fr) in
+  c_last init W h k = c_last init W [] k.
+Proof.
+  intros init fr h k W. apply compute_history_independent_lemma.
+  intros o Ho. unfold W in Ho. apply in_map_iff in Ho. destruct Ho as ([[r w] f] & <- & Hin). simpl.
+  apply in_combine_l in Hin.
+  exact (proj1 (Forall_forall _ _) compute_catalogue_of_the_current_code_is_const_correct _ Hin).
+Qed.
+Print Assumptions compute_history_independent_current_code.
+
+(* finalize() again on a freshly loaded geometry: nothing changes (repaired); the tree as found appended *)
+Theorem finalize_twice_idempotent : forall W i s0,
+  fst (g_step true W GFinalize (fst (g_step true W (GLoad i) s0))) = fst (g_step true W (GLoad i) s0)
+  /\ (d_finalized (nth i W dummy_desc) = true ->
+      snd (g_step true W GFinalize (fst (g_step true W (GLoad i) s0))) = g_observe 0 (fst (g_step true W (GLoad i) s0))).
+Proof. exact finalize_idempotent_lemma. Qed.
+Print Assumptions finalize_twice_idempotent.
+
+Theorem geometry_refinalize_pinned_refuted :
+  snd (g_step false Gref GFinalize (g_run false Gref [GLoad 0%nat] gst0)) <> g_observe 0 (g_run false Gref [GLoad 0%nat] gst0)
+  /\ snd (g_step true Gref GFinalize (g_run true Gref [GLoad 0%nat] gst0)) = g_observe 0 (g_run true Gref [GLoad 0%nat] gst0).
+Proof. exact geometry_refinalize_pinned_refuted_lemma. Qed.
+Print Assumptions geometry_refinalize_pinned_refuted.
